@@ -68,9 +68,10 @@ def gen_project(rng, kind="ok", pid="p"):
             a.append("efficiency 0.1")
         elif rng.random() < 0.35:
             a.append(f"efficiency {rng.choice([0.5, 0.8, 1.5, 2.0])}")
-        if rng.random() < 0.3:
+        has_tz = rng.random() < 0.45
+        if has_tz:
             a.append(f'timezone "{rng.choice(ZONES)}"')
-        if rng.random() < 0.3:
+        if rng.random() < (0.8 if has_tz else 0.3):      # own hours in an own zone: the local-time conversion is exercised
             d0 = rng.randrange(0, 5)
             d1 = rng.randrange(d0, 5)
             s = rng.choice(["8:00", "9:00", "10:00"])
